@@ -2,7 +2,7 @@
    This is what the OCaml driver calls; each command evaluates model functions on a case that the
    Python harness also runs on the rebuilt implementation. *)
 From OptreeModel Require Export Wire Flatten Unflatten Spec Ops Registry Pickle Accessor.
-From OptreeModel Require Ravel Dataclass Typing Faults Depth Alias Conc ArraySpec Construct Walk PrefixErr PrefixArr UpToArr JoinArr PathsArr AccArr ComposeArr TransformArr.
+From OptreeModel Require Ravel Dataclass Typing Faults Depth Alias Conc ArraySpec Construct Walk PrefixErr PrefixArr UpToArr JoinArr PathsArr AccArr ComposeArr TransformArr Repr.
 
 Definition bad : sexp := SL [SI 2].   (* undecodable input: a harness error, never a verdict *)
 
@@ -88,6 +88,35 @@ Definition cmd_pair (c1 : cfg) (o1 : obj) (c2 : cfg) (o2 : obj) : sexp :=
     | _, _ => SL [SI 4]
     end
   | _, _ => SL [SI 5]     (* one of the trees does not flatten: not a case for this command *)
+  end.
+
+(* cmd 28: repr(treespec) as the token list of ToStringImpl (Repr.v) *)
+Definition lit_code (l : Repr.lit) : Z :=
+  match l with
+  | Repr.LStar => 0 | Repr.LNone => 1 | Repr.LLp => 2 | Repr.LRp => 3 | Repr.LComma => 4 | Repr.LSep => 5
+  | Repr.LLb => 6 | Repr.LRb => 7 | Repr.LLc => 8 | Repr.LRc => 9 | Repr.LColon => 10 | Repr.LOD => 11
+  | Repr.LDD => 12 | Repr.LDDmid => 13 | Repr.LDDend => 14 | Repr.LDeque => 15 | Repr.LMaxlen => 16
+  | Repr.LCust => 17 | Repr.LCustMid => 18 | Repr.LCustEnd => 19 | Repr.LEq => 20 | Repr.LHead => 21
+  | Repr.LNil => 22 | Repr.LNsPre => 23
+  end.
+Definition enc_rtok (t : Repr.rtok) : sexp :=
+  match t with
+  | Repr.RL l => SI (lit_code l)
+  | Repr.RKey k => SL [SI 1; enc_key k]
+  | Repr.RNtName cls ar => SL [SI 2; SI cls; enc_nat ar]
+  | Repr.RNtField cls ar i => SL [SI 3; SI cls; enc_nat ar; enc_nat i]
+  | Repr.RSsName cls => SL [SI 4; SI cls]
+  | Repr.RSsField cls i => SL [SI 5; SI cls; enc_nat i]
+  | Repr.RCustName r => SL [SI 6; SI (match r with Some x => rcls x | None => -1 end)]
+  | Repr.RMeta m eb => SL [SI 7; SI m; enc_ebeh eb]
+  | Repr.RFactory f => SL [SI 8; SI f]
+  | Repr.RMaxlen m => SL [SI 9; SI m]
+  | Repr.RNs ns => SL [SI 10; SI ns]
+  end.
+Definition cmd_repr (c : cfg) (o : obj) : sexp :=
+  match flatten c o with
+  | Err e => enc_err e
+  | Ok (_, sp) => enc_res (fun l => SL (map enc_rtok l)) (Repr.arr_repr sp)
   end.
 
 (* cmd 25: prefix_errors(prefix tree, full tree) — the list of (key path, error kind) *)
@@ -595,6 +624,11 @@ Definition run (s : sexp) : sexp :=
       SL [SI 0; SL (map (fun i => match Dataclass.dc_entry_field fs' i with Some n => SI n | None => SL [] end)
                         (seq 0 (length (Dataclass.init_fields fs'))))]
     | None => bad
+    end
+  | SL [SI 28; c; o] =>
+    match dec_cfg c, dec_obj o with
+    | Some c', Some o' => cmd_repr c' o'
+    | _, _ => bad
     end
   | SL [SI 25; c; p; f] =>
     match dec_cfg c, dec_obj p, dec_obj f with
